@@ -147,9 +147,10 @@ theorem N2_DSIG_DF__DPK1_DF (hc : c * c = 2) (h2 : (2:K) ≠ 0)
     (D : Nat → Nat → K) (F0 : M3 K) (f0 f1 f2 f3 f4 : K) (l0 l1 l2 l3 l4 : K) (s : Nat → K) (hJ : (plane f0 f1 f2 f3 f4).det ≠ 0) :
     lower (lamSig (plane f0 f1 f2 f3 f4) (M3.ofMandel c [s 0, s 1, s 2, s 3]) (plane l0 l1 l2 l3 l4) (M3.ofMandel c (act (Gen.N2_DSIG_DF__DPK1_DF_r c c3 fn D (tensv F0) (tensv (plane f0 f1 f2 f3 f4)) s) (M3.tens2 ((plane l0 l1 l2 l3 l4) * (plane f0 f1 f2 f3 f4))))))
       = lower (lamP (plane f0 f1 f2 f3 f4) (M3.ofMandel c [s 0, s 1, s 2, s 3]) (plane l0 l1 l2 l3 l4) (M3.ofTens (act (rowsOf D i5 i5) (M3.tens2 ((plane l0 l1 l2 l3 l4) * (plane f0 f1 f2 f3 f4)))))) := by
-  have hc0 : c ≠ 0 := c_ne_zero hc h2
   unfold Gen.N2_DSIG_DF__DPK1_DF_r
+  rw [lower_eq_upper (lamSig_symm _ _ (ofMandel_symm c _) (ofMandel_symm c _))]
   refine (PropsN2c.N2_DSIG_DF__DTAU_DF c c3 fn hc h2 (hJ := hJ) ..).trans ?_
+  rw [← lower_eq_upper (lamTau_symm _ _ (ofMandel_symm c _) (ofMandel_symm c _))]
   exact PropsN2a.N2_DTAU_DF__DPK1_DF c c3 fn hc h2 ..
 
 end TfelVerif.C23.PropsN2Chains
